@@ -206,6 +206,8 @@ ChunkFlags(m, t, res) ==
      \cup (IF \E j \in 1..Len(res.lens) : res.lens[j] # a - (j - 1) THEN {"ChunkLen"} ELSE {})
      \cup (IF k > a THEN {"ChunkLen"} ELSE {})
      \cup (IF res.endnone /\ k # a THEN {"ChunkLen"} ELSE {})
+     \* the caller discarded the rest through count() / nth / last: as many items as announced were left
+     \cup (IF "rest" \in DOMAIN res /\ res.rest # -1 /\ res.rest # a - k THEN {"ChunkLen"} ELSE {})
      \cup (IF \E j \in 1..k : PosOf(m, res.vals[j]) # b + (j - 1) THEN {"Index"} ELSE {})
      \cup (IF \E j \in 1..k : PosOf(m, res.vals[j]) < 0 THEN {"Value"} ELSE {})
      \cup (IF \E j \in 1..k : res.pidx[j] # -1 /\ res.pidx[j] # b + (j - 1) THEN {"RefIdentity"} ELSE {})
@@ -228,6 +230,8 @@ SeqFlags(m, res) ==
       und == {p \in DOMAIN m.deliv : m.deliv[p] = 0}
       k   == Len(res.vals)
   IN IF m.panicSeen \/ m.lowLevel THEN {}
+     \* delivered elements and remainder together are the source: nothing was delivered twice or from outside of it
+     ELSE IF m.flags \cap {"NoDup", "OutOfRange"} # {} THEN {"SeqWrong"}
      ELSE IF \E j \in 1..k : ps[j] < 0 THEN {"SeqWrong"}
      ELSE IF ~m.skipCalled
        THEN LET pre == Cardinality(Delivered(m)) IN
@@ -326,6 +330,8 @@ MRet(m, t, res) ==
 MNextEnter(m, t) ==
   [ AddFlags(m, IF m.inNext # {} THEN {"Mutex"} ELSE {}) EXCEPT !.inNext = @ \cup {t} ]
 MNextExit(m, t) == [m EXCEPT !.inNext = @ \ {t}]
+\* size_hint of the wrapped iterator: an access, too (the iterator need not be Sync)
+MHintRead(m, t, busy) == AddFlags(m, IF busy \/ m.inNext \ {t} # {} THEN {"Mutex"} ELSE {})
 
 MDropElem(m, id, ok) ==
   LET p == PosOf(m, id)
